@@ -426,6 +426,8 @@ def tiff_acquisitions(case, ops):
             elif s["cur"] is not None:       # rejected while running: the acquisition is over, its file is not judged
                 s["cur"]["clean"] = False
         elif o["op"] == "start":
+            # a path used again: what an earlier acquisition left there is overwritten, only the last one is read back
+            acqs[:] = [q for q in acqs if not (q["d"] == d and q["pid"] == s["pid"])]
             if ret == 3:
                 s["a"] += 1
                 s["cur"] = dict(x=case["id"], a=s["a"], kind=kind, pid=s["pid"], meta=case["metas"].get(s["mid"]) if s["mid"] else None,
@@ -595,6 +597,7 @@ def rnd_case(rng, cid, kinds, unit, ndev_max=2, scripts=True, maxz=99):
         p = [dict(op="open", d=d)]
         ncyc = rng.choice([1, 1, 2, 3])
         prev = None
+        last_set = None
         for cyc in range(ncyc):
             npath += 1
             name = "x%d_p%d%s" % (cid, npath, ext_of(c["devs"][d]))
@@ -613,7 +616,17 @@ def rnd_case(rng, cid, kinds, unit, ndev_max=2, scripts=True, maxz=99):
             # (tiff-json refuses a configuration without metadata, so it mostly gets one)
             allm = list(range(1, len(METAS) + 1))
             mids = ([None] + allm + allm) if c["devs"][d] == "tiff-json" else ([None, None] + allm)
-            p.append(dict(op="set", d=d, pid=npath, form=rng.choice(["plain", "file"]), mid=rng.choice(mids), sx=sx, sy=sy))
+            pid_now = npath
+            if c["devs"][d] in ("tiff", "tiff-json") and last_set is not None and last_set.get("mid") and rng.random() < 0.25:
+                # the same file / dataset directory again, with other metadata. `file_create` does not truncate (platform
+                # behaviour outside the properties), so the new metadata is at least as long as the one it replaces; only the
+                # last acquisition into a path is read back (tiff_acquisitions).
+                longer = [m for m in allm if m != last_set["mid"] and len(METAS[m - 1]) >= len(METAS[last_set["mid"] - 1])]
+                if longer:
+                    pid_now = last_set["pid"]
+                    mids = longer
+            p.append(dict(op="set", d=d, pid=pid_now, form=rng.choice(["plain", "file"]), mid=rng.choice(mids), sx=sx, sy=sy))
+            last_set = p[-1]
             if rng.random() < 0.08:
                 continue                       # configured, never started
             p.append(dict(op="start", d=d))
